@@ -395,6 +395,9 @@ class sptenmat:
         >>> ST1.nnz
         1
         """
+        # The empty value array may be stored with a leading axis of length one
+        if self.vals.size == 0:
+            return 0
         return len(self.vals)
 
     def norm(self) -> float:
@@ -531,6 +534,20 @@ class sptenmat:
         csubs = np.asarray(csubs, dtype=int)
         if csubs.shape == ():
             csubs = np.array([csubs])
+
+        # Positions counted from the end
+        rsubs = np.where(rsubs < 0, rsubs + self.shape[0], rsubs)
+        csubs = np.where(csubs < 0, csubs + self.shape[1], csubs)
+        if (
+            np.any(rsubs < 0)
+            or np.any(rsubs >= self.shape[0])
+            or np.any(csubs < 0)
+            or np.any(csubs >= self.shape[1])
+        ):
+            raise IndexError(
+                f"Index out of bounds for a matrix of shape {self.shape}: "
+                f"rows {rsubs}, columns {csubs}"
+            )
 
         if isinstance(value, (int, float, np.floating)):
             value = value * np.ones((len(csubs) * len(rsubs), 1))
